@@ -2,7 +2,10 @@
    Covered:  c05_inv           (nonvacuous + instance: a 5-operation history on a 4-element list that holds the
                                 vendor element 221 twice; the resulting state is written out),
              c05_step_refines  (nonvacuous + instance, three operations: removing the duplicated element 221,
-                                setting the SSID, counting 221; each with spec_step = Some ...),
+                                setting the SSID, counting 221; each with spec_step = Some ...; then the formerly open / refused
+                                cases: remove, set and count on a list with a non-leading empty element, and
+                                remove / count on the empty list),
+             c05_spec_total, c05_step_refines_total (instance: the empty-element list, OpRemove).
              c05_enc_injective (nonvacuous + instance: a 3-element list with an empty-bodied element).
    Skipped:  c05_inv_init (no hypotheses).
    Extra:    c05_inv_reached (the literal start state is the one four adds from tags_empty produce),
@@ -123,10 +126,76 @@ Proof.
   vm_compute. reflexivity.
 Qed.
 
-(* the case the theorem leaves open: a non-leading empty element makes spec_step None for remove/set/check *)
-Example c05_step_refines_open_case :
-  spec_step c_TAG_SSID c_TAG_DS_PARAMETER [(0, home); (5, []); (3, [6])] (OpRemove 3) = None.
-Proof. vm_compute. reflexivity. Qed.
+(* (d) formerly left open (spec_step was None): a list with a non-leading EMPTY element.  The iterator used to stop
+   at (5, []) and never saw the DS element behind it; now remove / set / count reach it (finding F44) *)
+Definition le : list tag := [(0, home); (5, []); (3, [6])].
+Definition se : tags := {| t_len := 11; t_bytes := [0; 4; 104; 111; 109; 101; 5; 0; 3; 1; 6] |}.
+Lemma wf_le : wf_tags le.
+Proof. apply wf_tagsb_ok. vm_compute. reflexivity. Qed.
+Example c05_step_refines_nonvacuous_empty :
+  wf_tags le /\ t_bytes se = enc le /\ t_len se = zlen (enc le) /\
+  spec_step c_TAG_SSID c_TAG_DS_PARAMETER le (OpRemove 3) = Some ([(0, home); (5, [])], 0) /\
+  spec_step c_TAG_SSID c_TAG_DS_PARAMETER le (OpSetChannel 11) = Some ([(0, home); (5, []); (3, [11])], 0) /\
+  spec_step c_TAG_SSID c_TAG_DS_PARAMETER le (OpCheck 3) = Some (le, 1).
+Proof. split; [exact wf_le |]. repeat split; vm_compute; reflexivity. Qed.
+
+Example c05_step_refines_instance_empty :
+  step se (OpRemove 3) = Done ({| t_len := 8; t_bytes := [0; 4; 104; 111; 109; 101; 5; 0] |}, 0) /\
+  step se (OpSetChannel 11) =
+    Done ({| t_len := 11; t_bytes := [0; 4; 104; 111; 109; 101; 5; 0; 3; 1; 11] |}, 0) /\
+  step se (OpCheck 3) = Done (se, 1).
+Proof.
+  destruct c05_step_refines_nonvacuous_empty as [A [B [C [E1 [E2 E3]]]]].
+  split; [| split].
+  - destruct (c05_step_refines se le (OpRemove 3) _ 0 A B C I E1) as [s' [Hs [Hb Hl]]].
+    rewrite Hs. destruct s' as [len bytes]. cbn [t_bytes t_len] in Hb, Hl. subst len bytes.
+    vm_compute. reflexivity.
+  - assert (D : wf_op (OpSetChannel 11)) by (cbn [wf_op]; lia).
+    destruct (c05_step_refines se le (OpSetChannel 11) _ 0 A B C D E2) as [s' [Hs [Hb Hl]]].
+    rewrite Hs. destruct s' as [len bytes]. cbn [t_bytes t_len] in Hb, Hl. subst len bytes.
+    vm_compute. reflexivity.
+  - destruct (c05_step_refines se le (OpCheck 3) le 1 A B C I E3) as [s' [Hs [Hb Hl]]].
+    rewrite Hs. destruct s' as [len bytes]. cbn [t_bytes t_len] in Hb, Hl. subst len bytes.
+    vm_compute. reflexivity.
+Qed.
+
+(* (e) formerly -EINVAL: removing from / counting in the EMPTY list returns 0 and leaves it empty (finding F50) *)
+Example c05_step_refines_nonvacuous_nil :
+  wf_tags [] /\ t_bytes tags_empty = enc [] /\ t_len tags_empty = zlen (enc []) /\
+  spec_step c_TAG_SSID c_TAG_DS_PARAMETER [] (OpRemove 3) = Some ([], 0) /\
+  spec_step c_TAG_SSID c_TAG_DS_PARAMETER [] (OpCheck 3) = Some ([], 0).
+Proof. split; [constructor |]. repeat split. Qed.
+
+Example c05_step_refines_instance_nil :
+  step tags_empty (OpRemove 3) = Done (tags_empty, 0) /\ step tags_empty (OpCheck 3) = Done (tags_empty, 0).
+Proof.
+  destruct c05_step_refines_nonvacuous_nil as [A [B [C [E1 E2]]]].
+  split.
+  - destruct (c05_step_refines tags_empty [] (OpRemove 3) [] 0 A B C I E1) as [s' [Hs [Hb Hl]]].
+    rewrite Hs. destruct s' as [len bytes]. cbn [t_bytes t_len] in Hb, Hl. subst len bytes.
+    vm_compute. reflexivity.
+  - destruct (c05_step_refines tags_empty [] (OpCheck 3) [] 0 A B C I E2) as [s' [Hs [Hb Hl]]].
+    rewrite Hs. destruct s' as [len bytes]. cbn [t_bytes t_len] in Hb, Hl. subst len bytes.
+    vm_compute. reflexivity.
+Qed.
+
+(* ---------- c05_spec_total / c05_step_refines_total ---------- *)
+(* no case is left open any more: on the empty-element list the reference step exists and the C step is it *)
+Example c05_spec_total_instance :
+  spec_step c_TAG_SSID c_TAG_DS_PARAMETER le (OpRemove 5) = Some ([(0, home); (3, [6])], 0).
+Proof.
+  destruct (c05_spec_total le (OpRemove 5)) as [l' [r H]]. rewrite H.
+  vm_compute in H. injection H as <- <-. reflexivity.
+Qed.
+Example c05_step_refines_total_instance :
+  step se (OpRemove 5) = Done ({| t_len := 9; t_bytes := [0; 4; 104; 111; 109; 101; 3; 1; 6] |}, 0).
+Proof.
+  destruct c05_step_refines_nonvacuous_empty as [A [B [C _]]].
+  destruct (c05_step_refines_total se le (OpRemove 5) A B C I) as [s' [l' [r [Sp [Hs [_ [Hb Hl]]]]]]].
+  vm_compute in Sp. injection Sp as <- <-.
+  rewrite Hs. destruct s' as [len bytes]. cbn [t_bytes t_len] in Hb, Hl. subst len bytes.
+  vm_compute. reflexivity.
+Qed.
 
 (* ---------- c05_enc_injective ---------- *)
 (* a 3-element list whose middle element has an empty body *)
